@@ -21,10 +21,17 @@ _rec_hist = with_recording
 
 
 def generate(seed, idx, tier):
-    if idx % 10 == 7:
+    if idx % 10 in (3, 7):
         rng = K.derive_rng(seed, 'valorder')
         n = rng.choice([2, 3, 3, 4])
         items = [VO.make_item(rng, i) for i in range(n)]
+        if rng.random() < 0.4:
+            # the same text judged against the message profile and against the standard tables, with a
+            # segment the one structure lists and the other does not: what is allowed belongs to the
+            # reference an element is validated against, not to its name
+            base = VO.make_item(rng, 90, force=rng.choice(['dsc', 'sft', 'err', 'zseg', 'extra_field']))
+            items[0] = dict(base, ref='mp')
+            items[1] = dict(base, ref=rng.choice(['std', 'std_nogroups']))
         o1 = list(range(n))
         o2 = list(range(n))
         while o2 == o1:
